@@ -160,27 +160,91 @@ def _by_rewriting(pc, goal):
 _SK = [0]
 
 
-def _skolemised(flat, goal):
-    """For a goal  forall j. P(j):  the quantifier-free problem  hyps', Q1(j0), Q2(j0) ... |- P(j0)  with a fresh
-    j0, where every universally quantified hypothesis  forall j. Q(j)  of the same arity is instantiated at
-    j0 (and then dropped).  Proving this proves the original (instances are implied by the hypotheses)."""
-    if not (z3.is_quantifier(goal) and goal.is_forall()):
+def _ground_args(terms):
+    """{(declaration name, argument position): [ground integer argument terms]} over the given terms"""
+    out = {}
+    seen = set()
+    todo = list(terms)
+    while todo:
+        x = todo.pop()
+        i = x.get_id()
+        if i in seen or z3.is_quantifier(x) or z3.is_var(x):
+            continue
+        seen.add(i)
+        if z3.is_app(x):
+            if x.decl().kind() in (z3.Z3_OP_UNINTERPRETED, z3.Z3_OP_SELECT) and x.num_args() > 0:
+                for k, a in enumerate(x.children()):
+                    if z3.is_int(a) and not _has_var(a):
+                        out.setdefault((x.decl().name(), k), {})[a.sexpr()] = a
+            todo.extend(x.children())
+    return out
+
+
+def _has_var(t):
+    todo = [t]
+    while todo:
+        x = todo.pop()
+        if z3.is_var(x):
+            return True
+        if z3.is_quantifier(x):
+            continue
+        todo.extend(x.children())
+    return False
+
+
+def _patterns(body, nvars):
+    """(declaration name, argument position, variable index) for applications that take a bound variable
+    directly as an argument"""
+    pats = set()
+    todo = [body]
+    seen = set()
+    while todo:
+        x = todo.pop()
+        if x.get_id() in seen or z3.is_quantifier(x):
+            continue
+        seen.add(x.get_id())
+        if z3.is_app(x):
+            if x.decl().kind() in (z3.Z3_OP_UNINTERPRETED, z3.Z3_OP_SELECT):
+                for k, a in enumerate(x.children()):
+                    if z3.is_var(a):
+                        pats.add((x.decl().name(), k, z3.get_var_index(a)))
+            todo.extend(x.children())
+    return pats
+
+
+MAX_INSTANCES = 12
+
+
+def _instantiated(flat, goal):
+    """A quantifier-free problem whose validity implies the original's:  a goal  forall j. P(j)  becomes
+    P(j0) for a fresh j0; every universally quantified hypothesis with one bound variable is replaced by its
+    instances at j0 and at the ground terms that occur, in the other formulas, where the hypothesis has its
+    bound variable (one round of pattern-based instantiation).  Instances are implied by the hypotheses."""
+    consts = []
+    if z3.is_quantifier(goal) and goal.is_forall():
+        n = goal.num_vars()
+        _SK[0] += 1
+        consts = [z3.Const('sk!%d!%d' % (_SK[0], i), goal.var_sort(i)) for i in range(n)]
+        # de Bruijn: variable 0 is the LAST bound variable
+        goal = z3.substitute_vars(goal.body(), *reversed(consts))
+    quantified = [h for h in flat if z3.is_quantifier(h) and h.is_forall() and h.num_vars() == 1]
+    if not quantified and not consts:
         return None
-    n = goal.num_vars()
-    _SK[0] += 1
-    consts = [z3.Const('sk!%d!%d' % (_SK[0], i), goal.var_sort(i)) for i in range(n)]
-    # de Bruijn: variable 0 is the LAST bound variable
-    body = z3.substitute_vars(goal.body(), *reversed(consts))
-    hyps = []
-    for h in flat:
-        if z3.is_quantifier(h):
-            if h.is_forall() and h.num_vars() == n and all(h.var_sort(i) == goal.var_sort(i) for i in range(n)):
-                hyps.extend(_goal_conjuncts(z3.substitute_vars(h.body(), *reversed(consts))))
-            continue
-        if _has_quantifier(h):
-            continue
-        hyps.append(h)
-    return hyps, body
+    ground = [h for h in flat if not _has_quantifier(h)]
+    occ = _ground_args(ground + [goal])
+    hyps = list(ground)
+    for h in quantified:
+        cands = {}
+        for c in consts:
+            if c.sort() == h.var_sort(0):
+                cands[c.sexpr()] = c
+        for (name, k, _vi) in _patterns(h.body(), 1):
+            for key, a in occ.get((name, k), {}).items():
+                if a.sort() == h.var_sort(0) and len(cands) < MAX_INSTANCES:
+                    cands.setdefault(key, a)
+        for a in cands.values():
+            hyps.extend(_goal_conjuncts(z3.substitute_vars(h.body(), a)))
+    return hyps, goal
 
 
 def _discharge1(pc, goal, want_smt2=False, all_backends=False, scale=1):
@@ -194,7 +258,7 @@ def _discharge1(pc, goal, want_smt2=False, all_backends=False, scale=1):
         t0 = time.time()
         if _by_rewriting(qf, goal):
             return Verdict('unsat', 'z3-%s(rewriting)' % z3.get_version_string(), time.time() - t0)
-        sk = _skolemised(flat, goal)
+        sk = _instantiated(flat, goal)
         if sk is not None:
             ok = True
             for g in _goal_conjuncts(z3.simplify(sk[1])):
